@@ -354,6 +354,14 @@ func bridgeHistory(w *tracew.Writer, seed int64, run, depth int, mode, network s
 			if r.Intn(2) == 0 {
 				g.Bitcoin.Params.DepositTaxRate, g.Bitcoin.Params.MaxDepositTax = uint64(1+r.Intn(30)), uint64(50+r.Intn(5000))
 			}
+			if mode == "params" && r.Intn(2) == 0 { // boundary genesis parameters (whatever Params.Validate lets through)
+				g.Bitcoin.Params.DepositTaxRate = []uint64{1, 9999, 10000}[r.Intn(3)]
+				g.Bitcoin.Params.MaxDepositTax = []uint64{1, 100000000}[r.Intn(2)]
+				g.Bitcoin.Params.MinDepositAmount = []uint64{1000, 10000}[r.Intn(2)]
+				if err := g.Bitcoin.Params.Validate(); err != nil { // refused by the module's own validation: not a reachable genesis
+					g.Bitcoin.Params.DepositTaxRate = 9999
+				}
+			}
 		}})
 	if err != nil {
 		return err
